@@ -39,7 +39,8 @@ class FEval:
         vals = {}
         for k, v in args.items():
             vals[k] = v
-        vals[self.ptr_param] = ("ptr", None)
+        if self.ptr_param is not None:
+            vals[self.ptr_param] = ("ptr", None)
 
         def val(o):
             if isinstance(o, int):
